@@ -58,6 +58,12 @@ class Inv:
             return I(r[0], r[1])
         if self.F.adt_path(ty) != ty and self.F.adt_of(ty) is not None and "<" not in ty:
             ty = self.F.adt_path(ty)
+        if re.search(r"backend::vector::ifma::field::F51x4Reduced$", ty):
+            # "reduced": every limb below 2^52, the IFMA multiplicand bound (outputs of the reduction are < 2^51 + 2^13 * 19)
+            lane = I(0, 2**52 - 1)
+            return ("st", (("arr", (("st", (("st", (("arr", (lane,) * 4),)),)),) * 5),))
+        if re.search(r"backend::vector::ifma::field::F51x4Unreduced$", ty):
+            return None     # no stated bound: analysed in the contexts that produce it
         if re.search(r"backend::vector::avx2::field::FieldElement2625x4$", ty):
             b = {"curve25519_dalek::backend::vector::avx2::edwards::ExtendedPoint": 0.007,
                  "curve25519_dalek::backend::vector::avx2::edwards::CachedPoint": 1.0,
